@@ -439,6 +439,11 @@ func init() {
 		panic(targetPanic{v: fr.x.runtimeErr("os.Exit called")})
 	})
 
+	// ---- ergo logging: empty bodies (formatting and log routing are not the subject) ----
+	for _, m := range []string{"Trace", "Debug", "Info", "Warning", "Error", "Panic"} {
+		reg("(*ergo.services/ergo/node.log)."+m, func(fr *frame, args []Value) Value { return nil })
+	}
+
 	// ---- regexp: compiled and matched natively (concrete strings only) ----------------
 	reg("regexp.MustCompile", func(fr *frame, args []Value) Value {
 		var v Value = Native{X: regexp.MustCompile(concStr(fr.x, args[0]))}
